@@ -38,7 +38,13 @@ type Case struct {
 	Builders []*Builder
 	Features map[string]bool
 	Query    string // raw query used on requests ("" = none)
+	// ParamWrites are the writes that carry parameter sets only (no picture): no sample, but the
+	// track's current parameters change (profile mv)
+	ParamWrites []ParamWrite
 }
+
+// ParamWrite is a write that carries parameter sets and no picture.
+type ParamWrite struct{ Track, WriteIdx, ParamIdx int }
 
 // Samples returns the expected samples of a track.
 func (c *Case) Samples(track int) []Sample { return c.Builders[track].Samples }
@@ -697,6 +703,19 @@ func Gen(seed int64, index int, o GenOpts) *Case {
 					ntpStepAcc += time.Duration(pick(300)) * time.Millisecond
 				}
 				stepc := ntpStepAcc
+				if o.Profile == "mv" && sp.Kind == H264 && !sp.BFrames && ra && gopIdx > 1 && changeOnRA[gopIdx] && voc.ParamIdx >= 0 && chance(0.5) {
+					// the new parameter sets travel in a write of their own (no picture) right before the
+					// random-access unit, which does not repeat them
+					pidx := voc.ParamIdx
+					voc.ParamIdx = -1
+					c.Features["params-own-unit"] = true
+					events = append(events, event{t: tsec, order: ord, track: ti, fn: func(wi int) Write {
+						ps := sp.ParamSets[pidx]
+						c.ParamWrites = append(c.ParamWrites, ParamWrite{Track: ti, WriteIdx: wi, ParamIdx: pidx})
+						return Write{Track: ti, PTS: ptsc, NTP: ntpOf(tsec).Add(stepc), Data: [][]byte{ps.SPS, ps.PPS}}
+					}})
+					ord++
+				}
 				events = append(events, event{t: tsec, order: ord, track: ti, fn: func(wi int) Write {
 					ntp := ntpOf(tsec).Add(stepc)
 					data := p.b.Video(wi, ptsc, ntp, voc)
@@ -839,7 +858,7 @@ func Gen(seed int64, index int, o GenOpts) *Case {
 		// map sample idx -> data
 		dataOf := map[int][][]byte{}
 		for _, w := range c.Writes {
-			if w.Track == ti && c.Tracks[ti].Kind.IsVideo() {
+			if w.Track == ti && c.Tracks[ti].Kind.IsVideo() && len(w.Samples) > 0 {
 				dataOf[w.Samples[0]] = w.Data
 			}
 		}
